@@ -26,12 +26,8 @@ func ruleWalkLastIndex(p *Prog, r *Report, fns []*ssa.Function) {
 		}
 		var keys *ssa.Parameter
 		for _, prm := range fn.Params {
-			if sl, ok := prm.Type().Underlying().(*types.Slice); ok {
-				if pt, ok := sl.Elem().Underlying().(*types.Pointer); ok {
-					if _, ok := pt.Elem().Underlying().(*types.Struct); ok {
-						keys = prm
-					}
-				}
+			if isSegListType(prm.Type()) {
+				keys = prm
 			}
 		}
 		if keys == nil {
@@ -1077,12 +1073,8 @@ func ruleFilterAfterIndex(p *Prog, r *Report, fns []*ssa.Function) {
 		}
 		hasKeys := false
 		for _, prm := range fn.Params {
-			if sl, ok := prm.Type().Underlying().(*types.Slice); ok {
-				if pt, ok := sl.Elem().Underlying().(*types.Pointer); ok {
-					if _, ok := pt.Elem().Underlying().(*types.Struct); ok {
-						hasKeys = true
-					}
-				}
+			if isSegListType(prm.Type()) {
+				hasKeys = true
 			}
 		}
 		if !hasKeys {
@@ -1367,12 +1359,8 @@ func ruleWalkCurrent(p *Prog, r *Report, fns []*ssa.Function) {
 		}
 		hasKeys := false
 		for _, prm := range fn.Params {
-			if sl, ok := prm.Type().Underlying().(*types.Slice); ok {
-				if pt, ok := sl.Elem().Underlying().(*types.Pointer); ok {
-					if _, ok := pt.Elem().Underlying().(*types.Struct); ok {
-						hasKeys = true
-					}
-				}
+			if isSegListType(prm.Type()) {
+				hasKeys = true
 			}
 		}
 		if !hasKeys {
@@ -3202,12 +3190,24 @@ func ruleTypedValueUsed(p *Prog, r *Report, api string) {
 		}
 		isParse := hasPrefixAny(p.calleeName(&c.Call), "strconv.Parse")
 		if !isParse {
-			if g := staticCallee(&c.Call); g != nil && p.InModule(g) && !p.Exported(g) && len(g.Blocks) > 0 {
+			var parses func(g *ssa.Function, d int) bool
+			parses = func(g *ssa.Function, d int) bool {
+				found := false
 				eachInstr(g, func(b2 *ssa.BasicBlock, i2 ssa.Instruction) {
-					if c2, ok := i2.(*ssa.Call); ok && hasPrefixAny(p.calleeName(&c2.Call), "strconv.Parse") {
-						isParse = true
+					c2, ok := i2.(*ssa.Call)
+					if !ok || found {
+						return
+					}
+					if hasPrefixAny(p.calleeName(&c2.Call), "strconv.Parse") {
+						found = true
+					} else if h := staticCallee(&c2.Call); h != nil && h != g && p.InModule(h) && !p.Exported(h) && len(h.Blocks) > 0 && d < 3 && parses(h, d+1) {
+						found = true
 					}
 				})
+				return found
+			}
+			if g := staticCallee(&c.Call); g != nil && p.InModule(g) && !p.Exported(g) && len(g.Blocks) > 0 {
+				isParse = parses(g, 0)
 			}
 		}
 		if !isParse {
@@ -3870,4 +3870,18 @@ func predicateImpliesList(h *ssa.Function, prm *ssa.Parameter) bool {
 		found = true
 	}
 	return found
+}
+
+// isSegListType: a parsed path — a slice of segment records, by pointer or by value.
+func isSegListType(t types.Type) bool {
+	sl, ok := t.Underlying().(*types.Slice)
+	if !ok {
+		return false
+	}
+	et := sl.Elem().Underlying()
+	if pt, ok := et.(*types.Pointer); ok {
+		et = pt.Elem().Underlying()
+	}
+	_, isStruct := et.(*types.Struct)
+	return isStruct
 }
